@@ -233,3 +233,38 @@ func Verif_C01_ageing_step() {
 	verifapi.Quiesce()
 	verifapi.Assert("no-lock-left-held", verifapi.HeldLocks() == 0)
 }
+
+// Verif_C01_restarted_node_followed: a node that restarts announces a newer epoch and starts its
+// sequence numbers again from a low value. Whatever was recorded about its previous run (arbitrary
+// epoch/sequence), its updates of the new run are all followed, in order: after the second update of
+// the new run the table reflects that update (a link it added, or dropped, after the restart).
+func Verif_C01_restarted_node_followed() {
+	n := verifNetceptor("A")
+	s := n.s
+	n.verifConn("B", 1)
+	s.knownConnectionCosts["A"] = map[string]float64{"B": 1}
+	s.knownConnectionCosts["B"] = map[string]float64{"A": 1, "C": 1}
+	s.knownConnectionCosts["C"] = map[string]float64{"B": 1}
+	oldE, oldS := verifapi.Uint64(), verifapi.Uint64()
+	s.knownNodeInfo["B"] = &nodeInfo{Epoch: oldE, Sequence: oldS}
+	s.knownNodeInfo["C"] = &nodeInfo{Epoch: 1, Sequence: 1}
+	newE := verifapi.Uint64()
+	s1, s2 := verifapi.Uint64(), verifapi.Uint64()
+	verifapi.Assume(verifapi.All(newE > oldE, s1 < s2, s2 < 1000))
+	// first update of the new run: B is only connected to A so far
+	s.handleRoutingUpdate(&routingUpdate{NodeID: "B", UpdateID: "r1", UpdateEpoch: newE, UpdateSequence: s1, Connections: map[string]float64{"A": 1}, ForwardingNode: "B"}, "B")
+	verifapi.Quiesce()
+	s.updateRoutingTable()
+	verifapi.Quiesce()
+	_, viaB := s.routingTable["C"]
+	verifapi.Cover("first-update-of-new-run")
+	verifapi.Assert("restarted-node-first-update-followed", !viaB)
+	// second update of the new run: the link to C is back
+	s.handleRoutingUpdate(&routingUpdate{NodeID: "B", UpdateID: "r2", UpdateEpoch: newE, UpdateSequence: s2, Connections: map[string]float64{"A": 1, "C": 1}, ForwardingNode: "B"}, "B")
+	verifapi.Quiesce()
+	s.updateRoutingTable()
+	verifapi.Quiesce()
+	hop, ok := s.routingTable["C"]
+	verifapi.Cover("second-update-of-new-run")
+	verifapi.Assert("restarted-node-later-updates-followed", verifapi.All(ok, hop == "B", s.routingPathCosts["C"] == 2))
+}
